@@ -402,3 +402,17 @@ def path_scenarios(path, subst=None):
         if len(out) > 512:
             raise AnalysisError("path condition too large for DNF expansion")
     return out
+
+
+def index_loop(loop, seq_text):
+    """Name of the index variable if `loop` visits every index of the sequence: `for i in range(len(S))` / `for i, x in enumerate(S)`."""
+    if not isinstance(loop, ast.For):
+        return None
+    it = loop.iter
+    if isinstance(it, ast.Call) and isinstance(it.func, ast.Name):
+        if it.func.id == "range" and len(it.args) == 1 and src(it.args[0]) == "len(%s)" % seq_text and isinstance(loop.target, ast.Name):
+            return loop.target.id
+        if it.func.id == "enumerate" and len(it.args) == 1 and src(it.args[0]) == seq_text and isinstance(loop.target, ast.Tuple) \
+                and len(loop.target.elts) == 2 and isinstance(loop.target.elts[0], ast.Name):
+            return loop.target.elts[0].id
+    return None
